@@ -110,6 +110,7 @@ type Exec struct {
 	errorsNew   *ssa.Function
 
 	knownVals      map[int]uint64
+	decMemo        map[int][]*sym.Term
 	facts          map[int]bool
 	KeepScripts    bool
 	CrossCheck     func(id, script string, expect solver.Result)
